@@ -119,6 +119,7 @@ def check(ctx):
     pts = cgen.range_points()
     cells = 0
     groups = {}
+    cant7 = None
     for lo in pts:
         for hi in pts:
             if hi < lo:
@@ -127,8 +128,15 @@ def check(ctx):
                 cw, _ = evalexpr.run_function(tl, {'minimum': lo, 'maximum': hi})
             except evalexpr.Raised:
                 continue
-            _r, out = evalexpr.run_function(sr, {'minimum': lo, 'maximum': hi, 'has_extension_marker': False, 'self.length': None, 'self.fmt': None,
-                                                  'self.signed': True, 'self.has_extension_marker': False})
+            except evalexpr.Unsupported as e:
+                cant7 = cant7 or str(e)
+                continue
+            try:
+                _r, out = evalexpr.run_function(sr, {'minimum': lo, 'maximum': hi, 'has_extension_marker': False, 'self.length': None, 'self.fmt': None,
+                                                      'self.signed': True, 'self.has_extension_marker': False})
+            except evalexpr.Unsupported as e:
+                cant7 = cant7 or str(e)
+                continue
             pw = out.get('self.length')
             if pw is None:
                 continue
@@ -136,7 +144,8 @@ def check(ctx):
             if cw // 8 != pw:
                 groups.setdefault(('%d octets in C, %d in the Python codec' % (cw // 8, pw), 'minimum < 0' if lo < 0 else 'minimum >= 0'), (lo, hi))
     ctx.extra['integer_width_cells'] = cells
-    ctx.instance('C10.R7', 'INTEGER wire width: C generator vs Python OER codec on %d cells' % cells, 'ok' if not groups else 'VIOLATION', node=tl, file=UTIL)
+    ctx.instance('C10.R7', 'INTEGER wire width: C generator vs Python OER codec on %d cells' % cells,
+                 ('ok' if cells else 'undecided') if not groups else 'VIOLATION', ('not in a shape the evaluator follows: %s' % cant7) if cant7 else '', nontrivial=cells > 0, node=tl, file=UTIL)
     for (what, sign), (lo, hi) in sorted(groups.items()):
         ctx.violation('C10.R7', UTIL, tl, Model.qual(tl), 'for INTEGER (%d..%d): %s -- the generated code and the Python codec do not interoperate' % (lo, hi, what),
                       stmt='integer wire width differs (%s, %s)' % (what, sign))
